@@ -19,6 +19,15 @@ which streams were opened) runs `streamRouting`, which starts
   context was cancelled (by a successor) — `RemoveLocalReceiverCancelFunc`,
   `UnregisterActiveReceiver` (both unconditional).
 
+An incarnation winds down because (a) its incoming stream fails (`brk`, then `sNotice`), (b) a successor cancels its
+receiver (`rCancel` of the successor, then `rNotice`), (c) the lifetime ends (`stop`), or (d) the receiver ends ON ITS
+OWN (`selfEnd`): `sendAck`'s `Send` to the source fails, `sendAck` returns, its deferred function calls
+`shutdownChan.Shutdown()` and `CloseSend`, `recvReplicationMessages` returns, `Run` returns and runs its deferred
+clean-up with `outgoingContext.Err() == nil` — the ordinary removals.  `streamRouting` creates ONE `ShutdownOnce` and hands
+it to both `Run`s (and then only `wg.Wait()`s for both): the latch tripped by the receiver is the very signal the sender's
+`<-shutdownChan.Channel()` waits for, so the sender of the same incarnation closes its channel and unregisters too.  In
+all four cases the signal is the single flag `Inc.shutdown` (or `State.stopped`): `State.down`.
+
 The machine is FINE-GRAINED: one `Act` is one atomic step (one lock-protected region / one channel
 operation) of one goroutine, or one action of the environment.  Theorems quantify over every list
 of `Act`s, i.e. over every interleaving of any number of incarnations of any number of shards.
@@ -174,6 +183,9 @@ inductive Act where
   -- workers noticing a failure
   | sNotice (i : Tok)              -- `recvAck`'s `Recv` fails on the broken stream: shutdown signal
   | rNotice (i : Tok)              -- `recvReplicationMessages`' `Recv` fails on the cancelled context: shutdown signal
+  | selfEnd (i : Tok)              -- the upstream `Send` of receiver `i` fails (the source went away without resetting the stream):
+                                   -- `sendAck` returns, its deferred function trips the SHARED shutdown latch — the receiver ends on
+                                   -- its own, neither broken nor cancelled, and the sender of the same incarnation is told to end too
   -- sender
   | sSet (i : Tok) | sAdd (i : Tok) | sSnap (i : Tok) | sLook (i : Tok) (r : Tok) | sSend (i : Tok)
   | sNotifyDone (i : Tok) | sClose (i : Tok) | sUnregCheck (i : Tok) | sUnregAgain (i : Tok) | sRmChan (i : Tok)
@@ -229,6 +241,12 @@ def step (c : Cfg) (σ : State) (a : Act) : Option State :=
   | .rNotice i =>
     let x := σ.inc i
     if x.cancelled ∧ x.shutdown = false ∧ x.rpc = .running then some (σ.setInc i { x with shutdown := true }) else none
+  | .selfEnd i =>
+    -- `rNotice` without its cause: `sendAck` runs only while the receiver is `running`; the latch (`ShutdownOnce`) is the one object
+    -- `streamRouting` hands to BOTH `Run`s, so the sender's `<-shutdownChan.Channel()` fires as well (`sClose` becomes enabled);
+    -- no pc moves, `cancelled` stays `false`: the clean-up will take the ordinary (un-cancelled) removals
+    let x := σ.inc i
+    if x.shutdown = false ∧ x.rpc = .running then some (σ.setInc i { x with shutdown := true }) else none
   -- ---------------------------------------------------------------- sender
   | .sSet i =>
     let x := σ.inc i
